@@ -360,6 +360,7 @@ func init() {
 				c04StringAccess(c)
 			}},
 			{ID: "C04.R9", Doc: "token consumers are total: the helpers of the parser core that receive token text (parseField, the string decoder, …) raise no index/slice out of range on any short token (folded over all strings over `-+0.1e\"a` up to length 3)", Run: c04ConsumersTotal},
+			{ID: "C04.R10", Doc: "the string decoder the machines call is the trusted JSON decoder applied once to the re-quoted token with its error propagated (= C03.R2): a hand-written decoder would have to be proved total on every token, which the folding of C04.R9 (straight-line index expressions only) does not do", Run: func(c *Ctx) { decoderRule(c, "C04.R10") }},
 			{ID: "C04.R6", Doc: "determinism: no map range, go statement, select, package-level state, time or randomness in the parse closure", Run: c04Determinism},
 			{ID: "C04.R7", Doc: "ParseFile = os.ReadFile(path); error => (nil, err); otherwise ParseObject(string(data)) unchanged", Run: c04ParseFile},
 			{ID: "C04.R8", Doc: "wrappers ParseList/ParseObject", Run: func(c *Ctx) { wrapperRule(c, "C04.R8") }},
